@@ -22,7 +22,7 @@ from . import spec as S
 
 class Obligation:
     __slots__ = ('oid', 'kind', 'line', 'assumptions', 'goal', 'desc', 'status', 'backend', 'time', 'model',
-                 'state', 'src')
+                 'state', 'src', 'smt2', 'budget')
 
     def __init__(self, oid, kind, line, assumptions, goal, desc, state=None, src=''):
         self.oid, self.kind, self.line = oid, kind, line
@@ -139,7 +139,7 @@ class Executor:
         if not self.prune:
             return True
         s = z3.Solver()
-        s.set('timeout', 1500)
+        s.set('timeout', self.contract.options.get('prune_ms', 150))
         for a in st.pc:
             s.add(a)
         if extra is not None:
